@@ -26,12 +26,15 @@ def pinned(tier):
 def gen(rng, tier, k):
     from rv.gen import charts, sm_mem
 
-    cls = rng.choice(["any", "any", "any", "sm_writable", "osu_qua_write", "bms_writable"])
+    cls = rng.choice(["any", "any", "any", "sm_writable", "osu_qua_write", "bms_writable", "generic_mapset"])
     r = rng.choice(RATES + [round(rng.uniform(0.1, 4), rng.choice([1, 3, 6]))])
     r2 = rng.choice(RATES + [round(rng.uniform(0.2, 3), 3)])
     if cls == "sm_writable":
         spec = sm_mem.gen_spec(rng, rng.choice(["tempo_on_measure_lines", "tempo_off_measure", "single_tempo"]))
         return dict(cls=cls, sm_spec=spec, rate=r, rate2=r2)
+    if cls == "generic_mapset":
+        g = rng.choice(["osu", "osu", "qua", "bms"])
+        return dict(cls=cls, specs=[charts.gen_spec(rng, g) for _ in range(rng.choice([1, 2, 3]))], rate=r, rate2=r2)
     game = {"osu_qua_write": rng.choice(["osu", "qua"]), "bms_writable": "bms"}.get(cls)
     spec = charts.gen_spec(rng, game)
     hist = charts.gen_history(rng, allowed=["filter_mask", "sorted", "shuffle", "stack_noop", "reverse", "append_split"]) if rng.random() < 0.4 else []
@@ -58,7 +61,10 @@ def run(ctx, case):
 
     with ctx.quiet():
         try:
-            if case["cls"] == "sm_writable":
+            if case["cls"] == "generic_mapset":
+                from reamber.base.MapSet import MapSet
+                x = MapSet([charts.build(s) for s in case["specs"]])   # the base mapset of single-chart games
+            elif case["cls"] == "sm_writable":
                 x = sm_mem.build(case["sm_spec"])
             else:
                 x = charts.apply_history(charts.build(case["spec"]), case["history"])
